@@ -377,7 +377,20 @@ def stopping_rule(ctx, rid):
     lp = H.ast
     # per iteration: one draw, one update of it, before any break test
     draws = [(n, c) for n, c, nm in all_calls(ctx, f, g) if isinstance(c.func, ast.Name) and c.func.id == f.positional[0] and getattr(n.stmt, "_parent", None) is lp]
-    ups = [(n, c) for n, c, nm in all_calls(ctx, f, g) if norm(c.func) == "rs.update"]
+    # the statistics object / the sample list by role (the local bound to RunningStatistics(); the list the draws are appended to)
+    rsn = [norm(st_.targets[0]) for st_ in ast.walk(f.node) if isinstance(st_, ast.Assign) and isinstance(st_.value, ast.Call) and norm(st_.value.func).endswith("RunningStatistics") and isinstance(st_.targets[0], ast.Name)]
+    need(len(rsn) == 1, "anchor lost: the RunningStatistics object of estimate_from_repeats")
+    RS = rsn[0]
+    from ..util import callee_func
+    for b_ in [n for n in g.nodes if n.kind == "stmt" and isinstance(n.ast, ast.Break)]:
+        p_ = getattr(b_.ast, "_parent", None)
+        while p_ is not None and p_ is not lp:
+            if isinstance(p_, ast.If):
+                for c_ in ast.walk(p_.test):
+                    if isinstance(c_, ast.Call) and callee_func(ctx, f, c_) is not None and not norm(c_.func).startswith(RS + "."):
+                        raise AnalysisError("idiom changed: the stopping test of estimate_from_repeats is delegated to `%s`" % norm(c_.func))
+            p_ = getattr(p_, "_parent", None)
+    ups = [(n, c) for n, c, nm in all_calls(ctx, f, g) if norm(c.func) == RS + ".update"]
     brks = [n for n in g.nodes if n.kind == "stmt" and isinstance(n.ast, ast.Break)]
     if len(draws) == 1 and len(ups) == 1 and isinstance(draws[0][0].ast, ast.Assign) and norm(ups[0][1].args[0]) == norm(draws[0][0].ast.targets[0]) \
             and g.completes_before(draws[0][0].id, ups[0][0].id) and all(g.dominates(ups[0][0].id, b.id) for b in brks) and getattr(ups[0][0].stmt, "_parent", None) is lp:
@@ -385,7 +398,9 @@ def stopping_rule(ctx, rid):
     else:
         rr.bad(ctx.finding(rid, f, ups[0][1] if ups else f.node, "a drawn value does not reach rs.update exactly once before the exit tests (the statistics are not those of exactly the samples drawn, or convergence is tested on stale statistics)", construct="update-per-draw"), "update per draw")
     # samples mode: appended exactly once
-    apps = [n for n in g.nodes if n.kind == "stmt" and norm(n.ast) == "xs.append(%s)" % (norm(draws[0][0].ast.targets[0]) if draws and isinstance(draws[0][0].ast, ast.Assign) else "x")]
+    dname = norm(draws[0][0].ast.targets[0]) if draws and isinstance(draws[0][0].ast, ast.Assign) else "x"
+    apps = [n for n in g.nodes if n.kind == "stmt" and isinstance(n.ast, ast.Expr) and isinstance(n.ast.value, ast.Call) and isinstance(n.ast.value.func, ast.Attribute) and n.ast.value.func.attr == "append"
+            and len(n.ast.value.args) == 1 and norm(n.ast.value.args[0]) == dname]
     def _samples_test(t):
         if isinstance(t, ast.Name):
             d = single_def(f, t.id, g)
@@ -419,7 +434,7 @@ def stopping_rule(ctx, rid):
         cs = kinds[conv[0]]
         cc = [c for c in cs if "converged" in norm(c)][0]
         floor_c = [c for c in cs if "min_samples" in norm(c)]
-        call = [x for x in ast.walk(cc) if isinstance(x, ast.Call) and norm(x.func) == "rs.converged"][0]
+        call = [x for x in ast.walk(cc) if isinstance(x, ast.Call) and norm(x.func) == RS + ".converged"][0]
         cm = prog.need_cls(U + ".RunningStatistics").methods.get("converged")
         params = cm.positional[1:]
         a = [norm(x) for x in call.args]
